@@ -21,8 +21,20 @@ def mk(kind, p, d):
     return lib.construct(kind, lambda: _mk(kind, p, d))
 
 
+_BUF = [0.0, 0.0, 0.0]     # one caller-owned list, refilled for every Vector built through the list form
+
+
+def _vec_from_list(d):
+    _BUF[:] = [lib._num(c) for c in d]
+    return Vector(_BUF)
+
+
 def _mk(kind, p, d):
+    sel2 = (abs(int(d[0])) + abs(int(d[1])) + abs(int(d[2]))) % 2
     if kind == 'Line':
+        if sel2:
+            # point + direction form, the direction built from the caller's (later refilled) list
+            return Line(lib.P(p), _vec_from_list(d))
         # two-point form from a Point object that earlier served other (moved) lines
         pt = lib.use_point_elsewhere(lib.P(p))
         return Line(pt, lib.P(X.add(p, d)))
@@ -37,7 +49,7 @@ def _mk(kind, p, d):
             w = X.cross(d, u)
             return Plane(lib.P(p), lib.V(X.scal(2, u)), lib.V(X.add(w, u)))
         return Plane(lib.P(p), lib.V(d))
-    return lib.V(d)
+    return _vec_from_list(d) if sel2 else lib.V(d)
 
 
 def eval_scene(fam, combo, u, v):
@@ -74,6 +86,7 @@ def eval_scene(fam, combo, u, v):
                           '%s(%s) [%s] expected %r got %r' % (op, combo, form, exp, lib.describe(got))))
 
     a, b = mk(ka, PA, u), mk(kb, PB, v)
+    _BUF[:] = [7.0, -5.0, 3.0]     # the caller goes on using its list
     for op, fn, exp in (('angle', angle, exp_angle), ('parallel', parallel, exp_par), ('orthogonal', orthogonal, exp_orth)):
         forms = [('fn', lambda: fn(a, b)), ('fn-swapped', lambda: fn(b, a))]
         if ka != 'Vector':
